@@ -81,6 +81,17 @@ class Mon(X.Monitor):
                         'released by the dispatch',
                     }
                 )  # fmt: skip
+        if ev[0] == 'expect-idle' and not sim.is_idle():
+            a = rec['post']
+            out.append(
+                {
+                    'clause': 'C04.quiesce',
+                    'signature': 'no-quiescence-with-answering-workers',
+                    'observed': {'nodes': {k: v for k, v in a['nodes'].items() if v['todo'] or v['doing']},
+                                 'que': a['que'], 'cluster': a['cluster'], 'running': a['running']},
+                    'expected': 'idle state reached once every worker has answered',
+                }
+            )  # fmt: skip
         if sim.is_idle():
             v = sim.views()
             bad = {}
@@ -104,18 +115,6 @@ class Mon(X.Monitor):
                     }
                 )  # fmt: skip
         return out
-
-    def not_quiescent(self, sim):
-        a = sim.abstract()
-        return [
-            {
-                'clause': 'C04.quiesce',
-                'signature': 'no-quiescence-with-answering-workers',
-                'observed': {'nodes': {k: v for k, v in a['nodes'].items() if v['todo'] or v['doing']},
-                             'que': a['que'], 'cluster': a['cluster'], 'running': a['running']},
-                'expected': 'idle state reached once every worker has answered',
-            }
-        ]  # fmt: skip
 
 
 def _job(job):
